@@ -324,6 +324,35 @@ def run_sequence(rec, rng, cid):
                           "reapplication-changes-data",
                           "re-applying the same pipeline: %s / columns "
                           "changed" % res2, case)
+                if details:
+                    # the details dictionary handed out belongs to the
+                    # caller: editing it (e.g. converting units for a plot)
+                    # must not change the curve
+                    try:
+                        det = idnt.apply_preprocessing(
+                            copy.deepcopy(steps), copy.deepcopy(options),
+                            ret_details=True)
+                    except BaseException:  # noqa
+                        det = None
+
+                    def arrays(o):
+                        if isinstance(o, np.ndarray):
+                            yield o
+                        elif isinstance(o, dict):
+                            for v in o.values():
+                                yield from arrays(v)
+                        elif isinstance(o, (list, tuple)):
+                            for v in o:
+                                yield from arrays(v)
+                    for a_ in arrays(det):
+                        if a_.flags.writeable and a_.dtype.kind == "f":
+                            a_ *= 1e9
+                    rec.event("returned details edited in place")
+                    rec.check(columns_fp(idnt) == now and
+                              raw_fp(idnt) == raw0,
+                              "details-alias-curve-data",
+                              "editing the returned preprocessing details "
+                              "in place changed the curve", case)
                 prev = (copy.deepcopy(steps), copy.deepcopy(options))
                 last_accepted = prev
                 after_rejection = False
